@@ -8,7 +8,7 @@ CipherNew(name, bits, key) ==
        IF LenOf(key) * 8 = bits THEN [panic |-> FALSE, err |-> FALSE, hasobj |-> TRUE] ELSE [panic |-> FALSE, err |-> TRUE, hasobj |-> FALSE])
 EncryptStep(obj, pt, rnd) ==
   Step("cipher_encrypt", "C10", FALSE, [obj |-> obj, pt |-> pt, rand |-> rnd],
-       [panic |-> FALSE, err |-> FALSE, hasct |-> TRUE, ctlen |-> [oneof |-> SeqOfSet(CtLens(LenOf(pt)))], ivrepeat |-> FALSE]
+       [panic |-> FALSE, err |-> FALSE, hasct |-> TRUE, ctlen |-> [oneof |-> SeqOfSet(CtLens(LenOf(pt)))], ivrepeat |-> FALSE, ptsame |-> TRUE]
        @@ (IF rnd.mode = "system" THEN << >> ELSE [ivdelivered |-> TRUE]))
 EncryptFailStep(obj, pt, rnd) ==
   Step("cipher_encrypt", "C10", FALSE, [obj |-> obj, pt |-> pt, rand |-> rnd],
